@@ -8,8 +8,8 @@
   `timerCatchesException`, `intervalCoerced` (RepeatedTimer) — all as they are in /repo *now*.
 
   Quantifiers: every op sequence — poll responses (UPDATE / NO_CHANGE / any other type / malformed), failed polls,
-  register / unregister, and the three atomic regions of every background apply task (`taskRead`, `taskCall`,
-  `taskInstall`)
+  register / unregister, and the four atomic regions of every background apply task (`taskStart` = the statements
+  before the update lock, `taskRead` = lock + the statements before the listener loop, `taskCall`, `taskInstall`)
   placed anywhere, in any order, for any number of workers (an index that names no task is a no-op, a read that
   would need the lock while it is taken does not happen).  `refRun` is the reference kept from the statement: the
   latest configuration received and the live registrations.  No bound anywhere.
@@ -19,15 +19,16 @@ import DeepModel.Proofs.ConfigSvc
 namespace C12
 open ConfigSvc Extracted.ConfigSvc
 
-/-- **convergence** — whenever nothing is in flight (no apply task waiting, none between its read and its
-    install), what the handler acts on is exactly the latest configuration the service sent (its interpretable
+/-- **convergence** — whenever nothing is in flight (no apply task waiting, none standing before the lock, none
+    between its read and its install), what the handler acts on is exactly the latest configuration the service sent (its interpretable
     tracepoints) followed by the live registrations — never an older configuration. -/
 theorem c12_converges (ops : List Op) (hq : quiescent (run ops) = true) :
     (run ops).h.installed = (refRun ops).expected := by
   have r := rel_run ops
   simp only [quiescent, Bool.and_eq_true, List.isEmpty_iff] at hq
-  rcases r.settled.2 with h | h | h | h
-  · exact absurd hq.1 h
+  rcases r.settled.2 with h | h | ⟨l, v, h, _⟩ | ⟨l, h⟩ | h
+  · exact absurd hq.1.1 h
+  · exact absurd hq.1.2 h
   · rw [hq.2] at h; simp at h
   · rw [hq.2] at h; simp at h
   · rw [h.2, r.polled, Ref.expected, ← r.live]
@@ -165,9 +166,14 @@ theorem c12_polling_continues (ops : List Op) (hb : Op.pollFail .base ∉ ops) :
         | register t => exact hs
         | registerBad => exact hs
         | unregister h => exact hs
-        | taskRead i =>
+        | taskStart i =>
           simp only [step]
           cases s.svc.queued[i]? with
+          | none => exact hs
+          | some t => exact hs
+        | taskRead k =>
+          simp only [step]
+          cases s.pre[k]? with
           | none => exact hs
           | some t => dsimp only; split <;> exact hs
         | taskCall k =>
@@ -194,8 +200,9 @@ theorem c12_polling_continues (ops : List Op) (hb : Op.pollFail .base ∉ ops) :
 theorem c12_lock_needed :
     let c1 : RawTp := ⟨⟨"a.py", 1, "old"⟩, true, true⟩
     let c2 : RawTp := ⟨⟨"a.py", 2, "new"⟩, true, true⟩
-    let s := runFrom false St.init [.pollUpdate 1 "h1" [c1], .taskRead 0, .pollUpdate 2 "h2" [c2], .taskRead 0,
-                                    .taskCall 1, .taskInstall 1, .taskCall 0, .taskInstall 0]
+    let s := runFrom false St.init [.pollUpdate 1 "h1" [c1], .taskStart 0, .taskRead 0, .pollUpdate 2 "h2" [c2],
+                                    .taskStart 0, .taskRead 0, .taskCall 1, .taskInstall 1, .taskCall 0,
+                                    .taskInstall 0]
     quiescent s = true ∧ s.svc.hash = some "h2" ∧ s.h.installed = [c1.trig] := by decide
 
 /-! ### non-vacuity -/
@@ -210,8 +217,8 @@ private def broken : RawTp := ⟨⟨"a.py", 4, "s4"⟩, true, false⟩
 example :
     let ops := [Op.pollUpdate 1 "h1" [t1], .pollUpdate 2 "h2" [t2, bad], .register ⟨"b.py", 1, "w1"⟩,
                 .pollUpdate 3 "h3" [t1, broken], .pollError, .pollNoChange 4, .poll .other 5 "" [],
-                .taskRead 1, .taskRead 0, .taskCall 0, .taskInstall 0, .taskRead 0, .taskCall 0, .taskInstall 0,
-                .applyTask 0]
+                .taskStart 1, .taskStart 0, .taskRead 0, .taskRead 0, .taskCall 0, .taskInstall 0, .taskRead 0,
+                .taskCall 0, .taskInstall 0, .applyTask 0]
     quiescent (run ops) = true ∧ (run ops).h.installed = [t2.trig, ⟨"b.py", 1, "w1"⟩] ∧
     requestHash (run ops).svc = some "h2" ∧ (refRun ops).expected = [t2.trig, ⟨"b.py", 1, "w1"⟩] := by decide
 
